@@ -266,6 +266,19 @@ func (c *Ctx) selTable(a Term, i Term) (Term, bool) {
 	}
 	iv, ok := litValue(i)
 	if !ok {
+		// symbolic index into a small one-dimensional table: an if-then-else chain over the
+		// entries (exact; keeps the entries visible as constants to the bit-vector reasoning)
+		dl, _ := tb.Data.([]interface{})
+		if tb.Sort.Elem.K != SArray && len(dl) > 0 && len(dl) <= 16 {
+			// out-of-range reads are arbitrary (the code cannot perform them: bounds obligations)
+			oob := "oob_" + strings.NewReplacer(".", "_").Replace(a.S)
+			c.declareFun(oob, []string{i.Sort.String()}, tb.Sort.Elem)
+			cur := c.app(tb.Sort.Elem, oob, i)
+			for k := len(dl) - 1; k >= 0; k-- {
+				cur = c.ite(c.eq(i, bvLitI(i.Sort.W, int64(k))), Term{c.tableBody(tb.Sort.Elem, dl[k]), tb.Sort.Elem}, cur)
+			}
+			return cur, true
+		}
 		return Term{}, false
 	}
 	dl, _ := tb.Data.([]interface{})
@@ -313,6 +326,9 @@ func (p *Program) frozenViolations() map[string][]string {
 						}
 						callers[cal][fn] = true
 					}
+				}
+				if _, isDbg := in.(*ssa.DebugRef); isDbg {
+					continue
 				}
 				for _, op := range in.Operands(nil) {
 					if f, ok := (*op).(*ssa.Function); ok {
